@@ -268,10 +268,15 @@ def random_schedule(ctx, d: Driver, env_events: Callable[[Driver], Optional[List
 # ---------------------------------------------------------------------------------- judging
 def report_problems(ctx, prefix: str, d: Driver, extra: Dict[str, Any]) -> int:
     n = 0
+    seen = ctx.stats.setdefault("oracle_failures_by_key", {})
     for pb in d.run.problems:
         n += 1
         key = pb.get("known_key") or pb["oracle"]
-        payload = {"lock": prefix, "events": shrink(ctx, prefix, d.events, pb, extra), "problem": pb}
+        seen[key] = seen.get(key, 0) + 1
+        if seen[key] > 3:
+            continue                  # counted; the first ones carry the replay
+        events = shrink(ctx, prefix, d.events, pb, extra) if seen[key] == 1 else d.events
+        payload = {"lock": prefix, "events": events, "problem": pb}
         payload.update(extra)
         ctx.violation(key, f"{pb['oracle']}: {json.dumps({k: v for k, v in pb.items() if k != 'oracle'}, default=repr)[:300]}", payload)
     return n
@@ -383,24 +388,24 @@ def flock_cases(ctx) -> Tuple[List[Driver], List[int]]:
     t0 = time.time()
     # (1) all interleavings of 2 contenders (acquire; release) with <= 3 preemptions
     scripts2 = {0: [["acq", 0, True, 20], ["rel", 0]], 1: [["acq", 1, True, 20], ["rel", 1]]}
-    out += explore(lambda: flock_driver(ctx, scripts2), 3, 1500 if quick else 40000)
+    out += explore(lambda: flock_driver(ctx, scripts2), 3, 1500 if quick else 6000)
     n1 = len(out)
     # (2) non-blocking contender, re-acquire on the same instance, double release
     scripts2b = {0: [["acq", 0, True, 10], ["acq", 0, True, 10], ["rel", 0], ["rel", 0]],
                  1: [["acq", 1, False, 10], ["rel", 1], ["acq", 1, True, 10], ["rel", 1]]}
-    out += explore(lambda: flock_driver(ctx, scripts2b), 2, 400 if quick else 5000)
+    out += explore(lambda: flock_driver(ctx, scripts2b), 2, 400 if quick else 2500)
     n2 = len(out)
     # (3) holder death / clock jumps / open failures at every point (environment moves are free)
     scripts3 = {0: [["acq", 0, True, 20], ["rel", 0]], 1: [["acq", 1, True, 20], ["rel", 1]],
                 "E": [["die", [0]], ["tick", 25]]}
-    out += explore(lambda: flock_driver(ctx, scripts3), 1, 600 if quick else 8000, free_actors=("E",))
+    out += explore(lambda: flock_driver(ctx, scripts3), 1, 600 if quick else 3000, free_actors=("E",))
     scripts3b = {0: [["acq", 0, True, 20], ["rel", 0]], 1: [["acq", 1, True, 20], ["rel", 1]],
                  "E": [["openerr", 1], ["openerr", 0]]}
-    out += explore(lambda: flock_driver(ctx, scripts3b), 1, 300 if quick else 4000, free_actors=("E",))
+    out += explore(lambda: flock_driver(ctx, scripts3b), 1, 300 if quick else 1500, free_actors=("E",))
     n3 = len(out)
     # (4) random schedules of 3 contenders with deaths, ticks, open errors
     rng = ctx.rng
-    for _ in range(150 if quick else 3000):
+    for _ in range(150 if quick else 1200):
         scripts = {c: [] for c in clients}
         for c in clients:
             for _k in range(rng.choice([1, 2, 3])):
@@ -468,27 +473,27 @@ def s3_cases(ctx) -> Dict[int, List[Driver]]:
     lease = 2
     scripts = {0: [["call", 0, "acquire", 1000], ["call", 0, "is_held"], ["call", 0, "release"]],
                1: [["call", 1, "acquire", 1000], ["call", 1, "is_held"], ["call", 1, "release"]]}
-    by_lease[2] += explore(lambda: s3_driver(ctx, scripts, lease), 3, 800 if quick else 30000)
+    by_lease[2] += explore(lambda: s3_driver(ctx, scripts, lease), 3, 800 if quick else 6000)
     n1 = len(by_lease[2])
     scripts_e = dict(scripts)
     scripts_e["E"] = [["tick", lease * 1000 + 1]]
-    by_lease[2] += explore(lambda: s3_driver(ctx, scripts_e, lease), 2, 800 if quick else 30000, free_actors=("E",))
+    by_lease[2] += explore(lambda: s3_driver(ctx, scripts_e, lease), 2, 800 if quick else 5000, free_actors=("E",))
     n2 = len(by_lease[2])
     scripts_r = {0: [["call", 0, "acquire", 1000], ["call", 0, "is_held"], ["call", 0, "release"]],
                  1: [["call", 1, "acquire", 3000], ["call", 1, "is_held"]],
                  "E": [["tick", lease * 1000 + 1], ["renew", 0, "none"], ["renew", 1, "none"]]}
-    by_lease[2] += explore(lambda: s3_driver(ctx, scripts_r, lease), 1, 800 if quick else 30000, free_actors=("E",))
+    by_lease[2] += explore(lambda: s3_driver(ctx, scripts_r, lease), 1, 800 if quick else 4000, free_actors=("E",))
     n3 = len(by_lease[2])
     # (1b) three clients, one releasing: every placement of the lease lapse (this is where the search meets F-C19
     #      on its own: release's GET, pause past the lease, takeover, delayed DELETE, create)
     scripts_3 = {0: [["call", 0, "acquire", 1000], ["call", 0, "release"]],
                  1: [["call", 1, "acquire", 1000]], 2: [["call", 2, "acquire", 1000]],
                  "E": [["tick", lease * 1000 + 1]]}
-    by_lease[2] += explore(lambda: s3_driver(ctx, scripts_3, lease), 2, 1200 if quick else 30000, free_actors=("E",))
+    by_lease[2] += explore(lambda: s3_driver(ctx, scripts_3, lease), 2, 1200 if quick else 5000, free_actors=("E",))
     n4 = len(by_lease[2])
     # (2) random: 3 clients, faults, renewals, deaths, clock jumps
     clients = [0, 1, 2]
-    for _ in range(200 if quick else 5000):
+    for _ in range(200 if quick else 2000):
         lease_s = rng.choice([2, 60])
         L = lease_s * 1000
         scripts3: Dict[Any, List[List[Any]]] = {c: [] for c in clients}
